@@ -4,8 +4,10 @@ import (
 	"bytes"
 	"crypto/ed25519"
 	"encoding/hex"
+	"errors"
 	"fmt"
 	"io"
+	"os"
 	"strings"
 	"sync"
 	"testing"
@@ -93,11 +95,22 @@ type scenario struct {
 	net, chain [2]uint64
 	plan       [2]legPlan
 	class      string
+	delta      uint64 // how far a deliberately wrong network / chain id is from the right one
+	replayToA  bool   // cross-session replay: B's recorded transcript is replayed to A instead of A's to B
+	dataLen    int    // cross-session replay: size of the data message recorded after the handshake
 }
 
+// idDeltas: distances between two DIFFERENT network / chain ids, including the ones that vanish when
+// an id is truncated to 8, 16 or 32 bits or loses its top bit
+var idDeltas = []uint64{1, 1, 7, 1 << 8, 1 << 16, 1 << 32, 3 << 32, 1<<32 + 1<<16, 1 << 63}
+
 func (s scenario) String() string {
-	return fmt.Sprintf("%s A{%s net=%d chain=%d} B{%s net=%d chain=%d} M{%s} legA{eph=%s sig=%s meta=%s} legB{eph=%s sig=%s meta=%s}",
-		s.class, s.kind[0], s.net[0], s.chain[0], s.kind[1], s.net[1], s.chain[1], s.kindM,
+	if s.class == "cross-session-replay" {
+		return fmt.Sprintf("%s A{%s net=%d chain=%d} B{%s net=%d chain=%d} recorded data=%dB replayed-to-A=%v",
+			s.class, s.kind[0], s.net[0], s.chain[0], s.kind[1], s.net[1], s.chain[1], s.dataLen, s.replayToA)
+	}
+	return fmt.Sprintf("%s A{%s net=%d chain=%d} B{%s net=%d chain=%d} M{%s} wrong-id-delta=%d legA{eph=%s sig=%s meta=%s} legB{eph=%s sig=%s meta=%s}",
+		s.class, s.kind[0], s.net[0], s.chain[0], s.kind[1], s.net[1], s.chain[1], s.kindM, s.delta,
 		s.plan[0].eph, s.plan[0].sig, s.plan[0].meta, s.plan[1].eph, s.plan[1].sig, s.plan[1].meta)
 }
 
@@ -111,7 +124,13 @@ func drawScenario(rt *rapid.T, rec *ev.Rec) scenario {
 		s.net = [2]uint64{v, v}
 	}
 	raw := func(label string) string { return rapid.SampledFrom(rawActs).Draw(rt, label) }
-	switch sel := rapid.IntRange(0, 19).Draw(rt, "class"); {
+	s.delta = rapid.SampledFrom(idDeltas).Draw(rt, "id-delta")
+	switch sel := rapid.IntRange(0, 21).Draw(rt, "class"); {
+	case sel >= 20:
+		s.class = "cross-session-replay"
+		s.replayToA = rapid.Bool().Draw(rt, "replay-to-A")
+		s.dataLen = rapid.SampledFrom([]int{1, 36, 1024, 1500}).Draw(rt, "replay-data")
+		s.plan = [2]legPlan{{"forward", "rawOther", "rawOther"}, {"forward", "rawOther", "rawOther"}}
 	case sel < 2:
 		s.class = "honest-relay"
 		s.plan = [2]legPlan{{"forward", "rawOther", "rawOther"}, {"forward", "rawOther", "rawOther"}}
@@ -120,11 +139,11 @@ func drawScenario(rt *rapid.T, rec *ev.Rec) scenario {
 		s.plan = [2]legPlan{{"forward", "rawOther", "rawOther"}, {"forward", "rawOther", "rawOther"}}
 		switch rapid.IntRange(0, 2).Draw(rt, "which") {
 		case 0:
-			s.net[1] = s.net[0] + 1
+			s.net[1] = s.net[0] + s.delta
 		case 1:
-			s.chain[1] = s.chain[0] + 1
+			s.chain[1] = s.chain[0] + s.delta
 		default:
-			s.net[1], s.chain[1] = s.net[0]+1, s.chain[0]+1
+			s.net[1], s.chain[1] = s.net[0]+s.delta, s.chain[0]+rapid.SampledFrom(idDeltas).Draw(rt, "id-delta2")
 		}
 	case sel < 7:
 		s.class = "relay-tamper"
@@ -151,7 +170,7 @@ func drawScenario(rt *rapid.T, rec *ev.Rec) scenario {
 			}
 		}
 		if rapid.IntRange(0, 7).Draw(rt, "netmismatch") == 0 {
-			s.chain[1] = s.chain[0] + 1
+			s.chain[1] = s.chain[0] + s.delta
 		}
 	}
 	// known finding: exclude exactly the reflected-signature + reflected-meta combination
@@ -191,8 +210,10 @@ func recorded(key crypto.PrivateKeyI, network, chain uint64) (*oldMaterial, erro
 	mk := p2psim.EdKey(99)
 	eph := p2psim.EdRaw(99)
 	fail := func(err error) (*oldMaterial, error) { _ = l.X.Close(); <-res; return nil, err }
-	if _, err := leg.RecvEph(); err != nil {
+	if k, err := leg.RecvEph(); err != nil {
 		return fail(err)
+	} else if e := noteEph(k, "O (recording session)"); e != nil {
+		return fail(e)
 	}
 	if err := leg.SendEph(eph.Public().(ed25519.PublicKey)); err != nil {
 		return fail(err)
@@ -219,6 +240,146 @@ func recorded(key crypto.PrivateKeyI, network, chain uint64) (*oldMaterial, erro
 	m := &oldMaterial{sig: sig, meta: meta}
 	oldCache[id] = m
 	return m, nil
+}
+
+// ---------------------------------------------------------------- ephemeral keys are per session
+
+var (
+	ephMu   sync.Mutex
+	ephSeen = map[string]string{}
+)
+
+// noteEph records an ephemeral public key an honest endpoint put on the wire; a key seen before means
+// two handshakes shared their half of the key agreement (nothing in a handshake is fresh then).
+func noteEph(key []byte, who string) error {
+	if len(key) == 0 || os.Getenv("C17_SKIP_EPH_ORACLE") != "" { // the knob exists to test the replay oracle on its own
+		return nil
+	}
+	ephMu.Lock()
+	defer ephMu.Unlock()
+	if prev, ok := ephSeen[string(key)]; ok {
+		return fmt.Errorf("EPHEMERAL-REUSE: the honest endpoint %s sent the ephemeral public key %x that %s already used in an earlier handshake", who, key, prev)
+	}
+	if len(ephSeen) < 1<<20 {
+		ephSeen[string(key)] = who
+	}
+	return nil
+}
+
+// ---------------------------------------------------------------- cross-session replay
+
+// executeReplay: session 1 is an untouched handshake between A and B followed by one data message of
+// the victim V (A, or B when replayToA); everything V wrote is recorded off the wire. Session 2: a
+// party that holds NO key opens a new connection to the other endpoint R (same identity, same
+// process) and writes the recording verbatim. R must not complete the handshake (nobody holding V's
+// key signed session 2's challenge), let alone deliver the recorded data.
+func (s scenario) executeReplay() (string, error) {
+	keys := [2]crypto.PrivateKeyI{p2psim.Key(s.kind[0], 1), p2psim.Key(s.kind[1], 2)}
+	name := [2]string{"A", "B"}
+	v, r := 0, 1 // victim, replay target
+	if s.replayToA {
+		v, r = 1, 0
+	}
+	// session 1
+	l := p2psim.NewLink("A", "B")
+	conns := [2]*p2psim.Conn{l.X, l.Y}
+	wires := [2]*p2psim.Wire{l.XY, l.YX} // wires[i] carries what endpoint i writes
+	rc := [2]<-chan p2psim.HSResult{p2psim.StartHandshake(conns[0], p2psim.Meta(s.net[0], s.chain[0]), keys[0]), p2psim.StartHandshake(conns[1], p2psim.Meta(s.net[1], s.chain[1]), keys[1])}
+	var res [2]p2psim.HSResult
+	timer := time.NewTimer(p2psim.Watchdog)
+	defer timer.Stop()
+	for i := 0; i < 2; i++ {
+		select {
+		case res[i] = <-rc[i]:
+		case <-timer.C:
+			_ = conns[0].Close()
+			_ = conns[1].Close()
+			return "", p2psim.ErrTimeout
+		}
+	}
+	if !res[0].OK() || !res[1].OK() {
+		return "", fmt.Errorf("session 1 (untouched) failed: A=%v B=%v", res[0].Err, res[1].Err)
+	}
+	data := payload(uint64(s.dataLen)*7919, 5, s.dataLen)
+	if n, err := res[v].EC.Write(data); err != nil || n != len(data) {
+		return "", fmt.Errorf("harness: session 1 write: (%d,%v)", n, err)
+	}
+	got := make([]byte, len(data))
+	if _, err := io.ReadFull(res[r].EC, got); err != nil || !bytes.Equal(got, data) {
+		return "", fmt.Errorf("session 1: data not delivered: %v", err)
+	}
+	recording := wires[v].Log()
+	target1 := wires[r].Log() // what the replay target itself sent in session 1
+	_ = res[0].EC.Close()
+	_ = res[1].EC.Close()
+	for i := 0; i < 2; i++ {
+		if body, err := p2psim.ReadLP(bytes.NewReader(wires[i].Log())); err == nil {
+			if k, err := p2psim.ParseEph(body); err == nil {
+				if e := noteEph(k, name[i]+" (session 1)"); e != nil {
+					return e.Error(), nil
+				}
+			}
+		}
+	}
+	// session 2: the replayer against a new handshake of R
+	l2 := p2psim.NewLink("M", name[r])
+	rc2 := p2psim.StartHandshake(l2.Y, p2psim.Meta(s.net[r], s.chain[r]), keys[r])
+	leg := p2psim.NewRawLeg(l2.X)
+	k2, err := leg.RecvEph()
+	if err != nil {
+		_ = l2.X.Close()
+		<-rc2
+		return "", fmt.Errorf("session 2: %s sent no ephemeral key: %v", name[r], err)
+	}
+	reuse := noteEph(k2, name[r]+" (session 2)")
+	_ = leg.WriteRaw(recording)
+	var r2 p2psim.HSResult
+	grace := time.NewTimer(10 * time.Second)
+	defer grace.Stop()
+	for done := false; !done; {
+		select {
+		case r2 = <-rc2:
+			done = true
+		case <-grace.C:
+			l2.X.CloseWrite()
+		case <-timer.C:
+			_ = l2.X.Close()
+			return "", p2psim.ErrTimeout
+		}
+	}
+	defer l2.X.Close()
+	if r2.Panic != nil {
+		return fmt.Sprintf("NewHandshake of %s panicked on a replayed recording: %v", name[r], r2.Panic), nil
+	}
+	if r2.OK() {
+		defer r2.EC.Close()
+		l2.X.CloseWrite()
+		buf := make([]byte, len(data)+16)
+		n, rerr := io.ReadAtLeast(r2.EC, buf, 1)
+		msg := fmt.Sprintf("CROSS-SESSION REPLAY: %s completed a handshake with a party that holds no key and only wrote what %s had sent in an EARLIER session; authenticated identity %x (== %s's key: %v)",
+			name[r], name[v], r2.EC.Address.PublicKey, name[v], bytes.Equal(r2.EC.Address.PublicKey, keys[v].PublicKey().Bytes()))
+		if n > 0 {
+			msg += fmt.Sprintf("; and delivered %d bytes of the recorded data message (equal to the old plaintext: %v, read err %v)", n, bytes.Equal(buf[:n], data[:min(n, len(data))]), rerr)
+		}
+		return msg, nil
+	}
+	if reuse != nil {
+		return reuse.Error(), nil
+	}
+	// same first encrypted frame in two sessions = same key, nonce and plaintext
+	f1, f2 := firstFrame(target1), firstFrame(l2.YX.Log())
+	if f1 != nil && f2 != nil && bytes.Equal(f1, f2) {
+		return fmt.Sprintf("%s sent the identical first encrypted frame in two sessions (same key and nonce)", name[r]), nil
+	}
+	return "", nil
+}
+
+func firstFrame(log []byte) []byte {
+	body, err := p2psim.ReadLP(bytes.NewReader(log))
+	if err != nil || len(log) < 4+len(body)+p2psim.FrameSize {
+		return nil
+	}
+	return log[4+len(body) : 4+len(body)+p2psim.FrameSize]
 }
 
 // ---------------------------------------------------------------- execution
@@ -270,6 +431,9 @@ func (s scenario) execute() (*verdict, error) {
 			continue
 		}
 		eph[i] = k
+		if e := noteEph(k, [2]string{"A", "B"}[i]); e != nil {
+			return nil, e
+		}
 	}
 	for i := 0; i < 2; i++ {
 		if !L[i].alive {
@@ -420,9 +584,9 @@ func (s scenario) execute() (*verdict, error) {
 					case "own":
 						body = p2psim.MetaMsg(p2psim.Meta(s.net[i], s.chain[i]).Sign(keyM))
 					case "own-wrongnet":
-						body = p2psim.MetaMsg(p2psim.Meta(s.net[i]+7, s.chain[i]).Sign(keyM))
+						body = p2psim.MetaMsg(p2psim.Meta(s.net[i]+s.delta, s.chain[i]).Sign(keyM))
 					case "own-wrongchain":
-						body = p2psim.MetaMsg(p2psim.Meta(s.net[i], s.chain[i]+7).Sign(keyM))
+						body = p2psim.MetaMsg(p2psim.Meta(s.net[i], s.chain[i]+s.delta).Sign(keyM))
 					case "signedByO":
 						om := L[o].meta
 						if om == nil {
@@ -493,6 +657,20 @@ func TestC17Handshake(t *testing.T) {
 		s := drawScenario(rt, rec)
 		c.Desc("%s", s)
 		c.Class("class=" + s.class)
+		if s.class == "cross-session-replay" {
+			viol, err := s.executeReplay()
+			if errors.Is(err, p2psim.ErrTimeout) {
+				inconclusive(rt, rec, "handshake-watchdog")
+			}
+			if err != nil {
+				rt.Fatalf("%s: %v", s, err)
+			}
+			if viol != "" {
+				rt.Fatalf("%s: %s", s, viol)
+			}
+			c.Done(true)
+			return
+		}
 		v, err := s.execute()
 		if err != nil {
 			rt.Fatalf("%s: %v", s, err)
